@@ -1519,6 +1519,12 @@ func (client *client) serve() {
 			client.wg.Done()
 		}()
 
+	} else {
+		// The connection is given up (no CONNECT in time, or the CONNECT was refused).
+		// Let the write loop flush the refusal, then close the socket: nothing else would,
+		// and the read loop would keep the connection and its goroutines forever.
+		client.wg.Wait()
+		_ = client.rwc.Close()
 	}
 	readWg.Wait()
 	verifYield("serve.read_done")
